@@ -8,7 +8,8 @@
     the node list), [json_proof] (= encoding/json into the Proof struct); what is assumed about
     [mpt_verify] is the explicit premise [mpt_sound] of the theorems that need it. *)
 From Teleport Require Import Base.Bytes Base.Outcome Model.EvmProof Model.EvmProofCheck Model.EvmProofWitness
-     Proofs.EvmProofRlp Proofs.EvmProof.
+     Proofs.EvmProofRlp Proofs.EvmProof Proofs.EvmProofKeys.
+From Teleport Require Base.Fmt Gen.KeysGen.
 Local Open Scope N_scope.
 
 Section Statements.
@@ -259,6 +260,24 @@ Proof. exact reject_undecodable. Qed.
 Print Assumptions C08_undecodable_rejected.
 
 (** ** 6. Correspondence machinery. *)
+
+(** The slot pre-images ([path ++ pad32(208)], hashed by [proof_key]) and the consensus-state store key of
+    the model are the key builders of the Go source: they equal the renderings of the format terms that
+    tools/gotocoq/keys regenerates from host/keys.go and {eth,bsc}/types/keys.go on every run (Gen/KeysGen.v);
+    a changed Go key builder breaks this obligation. *)
+Theorem C08_keys_match_go_source :
+  (forall src dst seq,
+     Fmt.render KeysGen.eth_ProofKeyConstructor_GetPacketCommitmentProofKey_preimage (path_args src dst seq)
+     = packet_path false src dst seq ++ pad32_208 /\
+     Fmt.render KeysGen.eth_ProofKeyConstructor_GetAckProofKey_preimage (path_args src dst seq)
+     = packet_path true src dst seq ++ pad32_208 /\
+     Fmt.render KeysGen.bsc_ProofKeyConstructor_GetPacketCommitmentProofKey_preimage (path_args src dst seq)
+     = packet_path false src dst seq ++ pad32_208 /\
+     Fmt.render KeysGen.bsc_ProofKeyConstructor_GetAckProofKey_preimage (path_args src dst seq)
+     = packet_path true src dst seq ++ pad32_208) /\
+  (forall h, Fmt.render KeysGen.host_ConsensusStateKey [Fmt.VN (rn h); Fmt.VN (rh h)] = consensus_key h).
+Proof. exact keys_match_go_source. Qed.
+Print Assumptions C08_keys_match_go_source.
 
 (** [verify] depends on the oracles only through the list [queries]: if the harness's tables agree with the
     real functions on these arguments, the model evaluated on the tables is the model on the real functions. *)
